@@ -733,6 +733,27 @@ func (m *modelImpl) lock() error {
 				vehicle.ID(),
 			)
 		}
+		// Direct successors must be neighbours in the start assignment as
+		// well, no other stop of the vehicle may sit between them.
+		vehicleStops := vehicle.Stops()
+		for idx, stop := range vehicleStops {
+			if stop.PlanStopsUnit().Index() != planUnit.Index() {
+				continue
+			}
+			for _, successor := range sequence {
+				if planUnit.DirectedAcyclicGraph().HasDirectArc(stop, successor) &&
+					(idx+1 >= len(vehicleStops) ||
+						vehicleStops[idx+1].Index() != successor.Index()) {
+					return fmt.Errorf(
+						"stop `%v` must be directly followed by stop `%v`"+
+							" in start assignment of vehicle `%v`",
+						stop.ID(),
+						successor.ID(),
+						vehicle.ID(),
+					)
+				}
+			}
+		}
 	}
 
 	// Loop all planunit combinations and check whether they must be neighbors.
